@@ -56,6 +56,9 @@ func (obj Symbol) Readably(b []byte, p *Printer) []byte {
 // something other than this symbol: a number or a time. (The symbol t is the
 // value true in many places and is left alone.)
 func (obj Symbol) readsAsOther() (other bool) {
+	if len(obj) == 0 {
+		return false
+	}
 	switch obj[0] {
 	case '0', '1', '2', '3', '4', '5', '6', '7', '8', '9', '+', '-', '.', '@':
 	default:
